@@ -499,14 +499,32 @@ def check_result_arrays(ctx):
     # result array sizes
     ar = b.methods.get("_alloc_ent_results_array")
     sizes = {}
+    exp = {}
     if ar is not None:
-        for n in ast.walk(ar):
-            if isinstance(n, ast.If):
-                t = A.norm(n.test)
-                for c in A.calls_in(n.body[0]) if n.body else []:
-                    if A.call_name(c) == "alloc_array":
-                        sizes[t] = A.norm(A.kwargs_of(c).get("length", ast.Constant(value=0)))
-    exp = {"tp==EPRType.K": "OK_FIELDS_K*number", "tp==EPRType.M": "OK_FIELDS_M*number", "tp==EPRType.R": "OK_FIELDS_M*number"}
+        # the function is executed abstractly for each request type; the length passed to alloc_array is evaluated for number = 3
+        bm = b.module
+        consts = {nm: ctx.ev.try_eval(ast.Name(id=nm, ctx=ast.Load()), bm) for nm in ("OK_FIELDS_K", "OK_FIELDS_M")}
+        tps = {k_: G.Sym(f"EPRType.{k_}") for k_ in ("K", "M", "R")}
+        pnum, ptp = A.param_names(ar)[1:3]
+        for k_, sym in tps.items():
+            got = []
+
+            def on_call(c, env_, got=got):
+                if A.call_name(c) == "alloc_array":
+                    a_ = A.kwargs_of(c).get("length", c.args[0] if c.args else None)
+                    try:
+                        got.append(G.peval(a_, env_) if a_ is not None else None)
+                    except Unknown:
+                        got.append("?")
+
+            env = dict({f"EPRType.{x}": s_ for x, s_ in tps.items()}, **{ptp: sym, pnum: 3}, **{n_: v_ for n_, v_ in consts.items() if v_ is not None})
+            try:
+                G.run_block(A.strip_docstring(ar.body), env, on_call)
+            except Unknown as ex_:
+                got.append(f"? ({ex_})")
+            sizes[k_] = got
+            fields = consts["OK_FIELDS_K"] if k_ == "K" else consts["OK_FIELDS_M"]
+            exp[k_] = [fields * 3] if isinstance(fields, int) else ["?"]
     ctx.check("C11.R", "_alloc_ent_results_array:OK_FIELDS-per-pair", sizes == exp, f"result arrays are sized {sizes}; expected {exp}", b.loc(ar) if ar else "")
 
 
